@@ -34,7 +34,7 @@ def field_cmp(fn, leaf):
 def check_comparators(rep, prog):
     n = 0
     for fn in prog.functions:
-        if fn.implicit or not fn.file.startswith(env.REPO + '/include') or fn.body is None:
+        if fn.implicit or not (fn.file.startswith(env.REPO + '/include') or fn.file.startswith(env.WITNESS + '/positive')) or fn.body is None:
             continue
         if len(fn.param_ids) != 2 or not (prog.type(fn.j['ret']) or {}).get('bool'):
             continue
